@@ -150,3 +150,140 @@ def p_minus(K, prop, fid, allowed, audit, tag=""):
                       "no unaudited API-contract panic class reachable (%d audited pairs, %d instances explored)" % (audited, len(order)),
                       loc, dict(instances_explored=len(order), audited=audited)))
     return out
+
+
+# ---------------------------------------------------------------- G rows
+from . import guards  # noqa: E402
+
+WORLDS = (2, 3)     # digit counts the representatives are evaluated at (3: widths that are not powers of two)
+
+
+def _sg(K):
+    if not hasattr(K, "SG"):
+        K.SG = nf.Summarizer(K.F, K.P, inline=True, terminal_fids=guards.atom_fids(K.F))
+    return K.SG
+
+
+def _match(exp, out, env, W):
+    """True / False / None (undecidable) for an expectation against an outcome."""
+    kind = exp[0]
+    if kind == "not":
+        if out[0] == "opaque":
+            return True
+        r = _match(exp[1], out, env, W)
+        return None if r is None else (not r)
+    if kind == "any_of":
+        rs = [_match(e, out, env, W) for e in exp[1:]]
+        if any(r is True for r in rs):
+            return True
+        if all(r is False for r in rs):
+            return False
+        return None
+    if out[0] == "opaque" or out[0] == "unknown":
+        return None
+    if kind == "panic":
+        if out[0] == "panic":
+            return out[1] == exp[1] or (exp[1] == "*")
+        return False
+    if out[0] == "panic":
+        return False
+    val = out[1]
+    if kind == "none":
+        if val is guards.OPAQUE:
+            return None
+        return val == ("None",)
+    if kind == "some":
+        if val is guards.OPAQUE:
+            return None
+        if not (isinstance(val, tuple) and val and val[0] == "Some"):
+            return False
+        if len(exp) > 1:
+            if val[1] is guards.OPAQUE:
+                return None
+            return val[1] == exp[1]
+        return True
+    if kind == "val":
+        if val is guards.OPAQUE:
+            return None
+        if isinstance(val, tuple) and val and val[0] == "tuple":
+            want = exp[1]
+            if not (isinstance(want, tuple) and want and want[0] == "tuple"):
+                return False
+            res = True
+            for a, b in zip(val[1], want[1]):
+                if b is None:
+                    continue
+                if a is guards.OPAQUE:
+                    res = None
+                    continue
+                if a != b:
+                    return False
+            return res
+        return val == exp[1]
+    if kind == "normal":
+        # a normal return (not a panic); the value is not constrained
+        return True
+    raise ValueError(exp)
+
+
+def g_row(K, prop, fid, reps, tag=""):
+    """reps: list of (name, env_fn(W) -> {param: value}, expect_fn(W, env) -> expectation).
+
+    One obligation per representative; it must hold in every world."""
+    F = K.F
+    root = F.root_of(fid)
+    if root is None:
+        return [missing(prop, "G", K, fid)]
+    loc = F.loc(F.instances[root]["d"])
+    S = _sg(K)
+    out = []
+    if not S.is_wrapper(root, as_root=True):
+        return [Ob("%s:G:%s:%s%s" % (prop, K.config, fid, tag and ":" + tag), prop, "G", K.config, fid, UNDECIDED,
+                   "function has a loop; its guards are not summarised", loc)]
+    tree = S.summary(root)
+    if tree is None or tree[0] == "?":
+        return [Ob("%s:G:%s:%s%s" % (prop, K.config, fid, tag and ":" + tag), prop, "G", K.config, fid, UNDECIDED,
+                   "not summarisable (%s)" % (tree[1] if tree else "recursion",), loc)]
+    for name, env_fn, exp_fn in reps:
+        key = "%s:G:%s:%s:%s" % (prop, K.config, fid, name)
+        status, detail = PROVED, ""
+        sample = None
+        for n in WORLDS:
+            W = guards.World(n)
+            env = env_fn(W)
+            exp = exp_fn(W, env)
+            o, path = guards.outcome(tree, env, W)
+            r = _match(exp, o, env, W)
+            pth = " ; ".join("%s=%s" % (nf.show_term(s_), v) for s_, v in path)
+            if r is False:
+                status = VIOLATED
+                detail = "representative %s (N=%d: %s): guards route to %s where the contract requires %s [path: %s]" % (
+                    name, n, _show_env(env), _show_out(o), _show_exp(exp), pth)
+                break
+            if r is None and status == PROVED:
+                status = UNDECIDED
+                detail = "representative %s (N=%d): outcome %s cannot be compared with %s" % (name, n, _show_out(o), _show_exp(exp))
+            if sample is None:
+                sample = "N=%d %s -> %s [path: %s]" % (n, _show_env(env), _show_out(o), pth)
+        if status == PROVED:
+            detail = "guards route as required: " + (sample or "")
+        out.append(Ob(key, prop, "G", K.config, fid, status, detail, loc, dict(representative=name)))
+    return out
+
+
+def _show_env(env):
+    return ", ".join("p%d=%r" % (k, v) for k, v in sorted(env.items()))
+
+
+def _show_out(o):
+    if o[0] == "panic":
+        return "panic[%s]" % o[1]
+    if o[0] == "ret":
+        return "return %r (%s)" % (o[1], nf.show_term(o[2][1])[:120])
+    if o[0] == "opaque":
+        return "non-guard code at `%s`" % nf.show_term(o[1])[:120]
+    return str(o)
+
+
+def _show_exp(e):
+    return repr(e)
